@@ -245,7 +245,7 @@ theorem add_spec (c : Cache) (k : Key) (v : Val) (cap : Nat) (hi : Inv c) :
       · exact Or.inr (by simpa using h)
 
 /-- the LRU's own capacity bound (`maxEntries = size / overhead`) can never be the reason for an
-    eviction: with `overhead > 0` the byte budget already implies `#entries ≤ size / overhead`. -/
+    eviction: the byte budget already implies `#entries * overhead ≤ size`. -/
 theorem entries_le_maxEntries (c : Cache) (hi : Inv c) :
     (c.entries.length : Int) * c.overhead ≤ c.size := by
   have hlen : ∀ es : List Entry, (es.length : Int) * c.overhead ≤ cost c.overhead es := by
@@ -579,6 +579,388 @@ theorem new_accepts_iff (size : Int) :
       omega
     simp only [this, if_false]
     exact ⟨_, rfl⟩
+
+/-! ### deadlock freedom -/
+
+/-- an owner whose `finish` channel is registered in `inProgress` -/
+def OwnerRegistered : PC → Prop
+  | .secondGet true => True
+  | .computing true => True
+  | .adding true _ _ => True
+  | .cleanupDelete _ => True
+  | _ => False
+
+/-- an owner that has not yet closed its channel -/
+def OwnerActive : PC → Prop
+  | .secondGet true => True
+  | .computing true => True
+  | .adding true _ _ => True
+  | .cleanupDelete _ => True
+  | .cleanupClose _ => True
+  | _ => False
+
+theorem ownerRegistered_active {pc : PC} (h : OwnerRegistered pc) : OwnerActive pc := by
+  cases pc <;> first | exact h | (rename_i ow; cases ow <;> first | exact h | cases h) | (rename_i ow _ _; cases ow <;> first | exact h | cases h) | cases h
+
+/-- every in-progress entry belongs to a live owner with that key; everybody who waits, waits for
+    a channel that is closed or whose owner is still on its way to closing it -/
+def ProgInv (s : Sys) : Prop :=
+  (∀ k ch, (k, ch) ∈ s.inProgress → ∃ th, s.threads[ch]? = some th ∧ th.key = k ∧ OwnerRegistered th.pc) ∧
+  (∀ th ∈ s.threads, ∀ ch, th.pc = .waiting ch →
+    s.closed.contains ch = true ∨ ∃ o, s.threads[ch]? = some o ∧ OwnerActive o.pc)
+
+/-- a call that can take a step -/
+def Enabled (s : Sys) (th : Thread) : Prop :=
+  match th.pc with
+  | .done _ => False
+  | .hung => False
+  | .waiting ch => s.closed.contains ch = true
+  | _ => True
+
+theorem lookupCh_mem (k : Key) (l : List (Key × Nat)) (ch : Nat) (h : lookupCh k l = some ch) : (k, ch) ∈ l := by
+  induction l with
+  | nil => simp [lookupCh] at h
+  | cons p ps ih =>
+    obtain ⟨k', c'⟩ := p
+    simp only [lookupCh] at h
+    by_cases hk : (k' == k) = true
+    · simp only [hk, if_true, Option.some.injEq] at h
+      subst h
+      have : k' = k := by simpa using hk
+      subst this; exact List.mem_cons_self
+    · simp only [hk] at h
+      exact List.mem_cons_of_mem _ (ih h)
+
+/-- distance of a call from returning; every step of an enabled call decreases it -/
+def rank : PC → Nat
+  | .start => 9
+  | .checkProgress => 8
+  | .waiting _ => 7
+  | .secondGet _ => 6
+  | .computing _ => 5
+  | .adding _ _ _ => 4
+  | .cleanupDelete _ => 3
+  | .cleanupClose _ => 2
+  | .done _ => 0
+  | .hung => 0
+
+theorem rank_finishPC (ow : Bool) (r : Res) : rank (finishPC ow r) ≤ 3 := by
+  cases ow <;> simp [finishPC, rank]
+
+/-- an enabled call makes progress with every step it is given (so a call needs at most 9 steps,
+    and `n` calls complete within `9·n` steps of enabled calls, whatever the scheduler does) -/
+theorem enabled_step_decreases (s : Sys) (t : Nat) (th : Thread) (o : Oracle) (hs : SysInv s)
+    (he : Enabled s th) : rank (stepThread s t th o).2.pc < rank th.pc := by
+  unfold stepThread
+  unfold Enabled at he
+  split
+  · rename_i hpc; rw [hpc]; split <;> simp [rank]
+  · rename_i hpc; rw [hpc]; split <;> simp [rank]
+  · rename_i ch hpc
+    rw [hpc] at he ⊢
+    simp only at he
+    rw [if_pos he]
+    simp [rank]
+  · rename_i ow hpc; rw [hpc]
+    split
+    · exact Nat.lt_of_le_of_lt (rank_finishPC ow _) (by simp [rank])
+    · simp [rank]
+  · rename_i ow hpc; rw [hpc]
+    split
+    · simp [rank]
+    · exact Nat.lt_of_le_of_lt (rank_finishPC ow _) (by simp [rank])
+  · rename_i ow v cap hpc; rw [hpc]
+    obtain ⟨c', hadd, _⟩ := add_spec s.cache th.key v cap hs.1
+    split
+    · rename_i heq; rw [hadd] at heq; cases heq
+    · exact Nat.lt_of_le_of_lt (rank_finishPC ow _) (by simp [rank])
+  · rename_i r hpc; rw [hpc]; simp [rank]
+  · rename_i r hpc; rw [hpc]; simp [rank]
+  · rename_i r hpc; rw [hpc] at he; exact absurd he (by simp)
+  · rename_i hpc; rw [hpc] at he; exact absurd he (by simp)
+
+/-- what a step of call `t` does to the bookkeeping `ProgInv` talks about -/
+def KeyFacts (s : Sys) (t : Nat) (th : Thread) (r : Sys × Thread) : Prop :=
+  r.1.threads = s.threads ∧ r.2.key = th.key ∧
+  (∀ k ch, (k, ch) ∈ r.1.inProgress →
+    ((k, ch) ∈ s.inProgress ∧ (ch = t → OwnerRegistered r.2.pc)) ∨
+    (k = th.key ∧ ch = t ∧ OwnerRegistered r.2.pc)) ∧
+  (∀ ch, s.closed.contains ch = true → r.1.closed.contains ch = true) ∧
+  (OwnerActive th.pc → OwnerActive r.2.pc ∨ r.1.closed.contains t = true) ∧
+  (∀ ch, r.2.pc = .waiting ch → th.pc = .waiting ch ∨ (th.key, ch) ∈ s.inProgress)
+
+theorem keyFacts_plain (s : Sys) (t : Nat) (th : Thread) (r : Sys × Thread)
+    (h1 : r.1.threads = s.threads) (h2 : r.2.key = th.key) (h3 : r.1.inProgress = s.inProgress)
+    (h4 : r.1.closed = s.closed)
+    (h5 : ∀ k, (k, t) ∈ s.inProgress → OwnerRegistered r.2.pc)
+    (h6 : OwnerActive th.pc → OwnerActive r.2.pc)
+    (h7 : ∀ ch, r.2.pc = .waiting ch → th.pc = .waiting ch ∨ (th.key, ch) ∈ s.inProgress) :
+    KeyFacts s t th r := by
+  refine ⟨h1, h2, ?_, ?_, ?_, h7⟩
+  · intro k ch h
+    rw [h3] at h
+    refine Or.inl ⟨h, ?_⟩
+    intro e; subst e; exact h5 k h
+  · intro ch h; rw [h4]; exact h
+  · intro h; exact Or.inl (h6 h)
+
+theorem finishPC_registered (r : Res) : OwnerRegistered (finishPC true r) := by simp [finishPC, OwnerRegistered]
+theorem finishPC_not_waiting (ow : Bool) (r : Res) (ch : Nat) : finishPC ow r ≠ .waiting ch := by
+  cases ow <;> simp [finishPC]
+
+theorem act_progInv (s : Sys) (a : Action) (hs : SysInv s) (hp : ProgInv s) : ProgInv (act s a) := by
+  obtain ⟨hP, hW⟩ := hp
+  cases a with
+  | spawn k =>
+    have hget : ∀ (ch : Nat) (th : Thread), s.threads[ch]? = some th → (s.threads ++ [({ key := k, pc := .start } : Thread)])[ch]? = some th := by
+      intro ch th h
+      have hlt : ch < s.threads.length := by
+        rcases List.getElem?_eq_some_iff.mp h with ⟨h, _⟩; exact h
+      rw [List.getElem?_append_left hlt]; exact h
+    refine ⟨?_, ?_⟩
+    · intro k' ch hm
+      obtain ⟨th, h1, h2, h3⟩ := hP k' ch hm
+      exact ⟨th, hget ch th h1, h2, h3⟩
+    · intro th hth ch hw
+      simp only [act] at hth
+      rcases List.mem_append.mp hth with h | h
+      · rcases hW th h ch hw with h' | ⟨o, h1, h2⟩
+        · exact Or.inl h'
+        · exact Or.inr ⟨o, hget ch o h1, h2⟩
+      · have : th = { key := k, pc := .start } := by simpa using h
+        subst this; cases hw
+  | step t o =>
+    simp only [act]
+    cases hth : s.threads[t]? with
+    | none => exact ⟨hP, hW⟩
+    | some th =>
+      simp only
+      have hmem : th ∈ s.threads := List.mem_of_getElem? hth
+      have hlt : t < s.threads.length := by
+        rcases List.getElem?_eq_some_iff.mp hth with ⟨h, _⟩; exact h
+      have hthOK := hs.2.2 th hmem
+      -- facts about the step, by cases on the pc
+      have key : KeyFacts s t th (stepThread s t th o) := by
+        have hreg : ∀ k, (k, t) ∈ s.inProgress → OwnerRegistered th.pc ∧ k = th.key := by
+          intro k hk
+          obtain ⟨th', h1, h2, h3⟩ := hP k t hk
+          rw [hth] at h1; injection h1 with h1; subst h1
+          exact ⟨h3, h2.symm⟩
+        unfold stepThread
+        split
+        · -- start
+          rename_i hpc
+          have hnr : ∀ k, (k, t) ∈ s.inProgress → False := by
+            intro k hk; have := (hreg k hk).1; rw [hpc] at this; exact this
+          have hna : ¬ OwnerActive th.pc := by rw [hpc]; exact id
+          split
+          · exact keyFacts_plain s t th _ rfl rfl rfl rfl (fun k hk => (hnr k hk).elim) (fun h => (hna h).elim)
+              (by intro ch h; cases h)
+          · exact keyFacts_plain s t th _ rfl rfl rfl rfl (fun k hk => (hnr k hk).elim) (fun h => (hna h).elim)
+              (by intro ch h; cases h)
+        · -- checkProgress
+          rename_i hpc
+          have hnr : ∀ k, (k, t) ∈ s.inProgress → False := by
+            intro k hk; have := (hreg k hk).1; rw [hpc] at this; exact this
+          have hna : ¬ OwnerActive th.pc := by rw [hpc]; exact id
+          split
+          · rename_i ch hl
+            exact keyFacts_plain s t th _ rfl rfl rfl rfl (fun k hk => (hnr k hk).elim) (fun h => (hna h).elim)
+              (by intro c h; injection h with h; subst h; exact Or.inr (lookupCh_mem _ _ _ hl))
+          · refine ⟨rfl, rfl, ?_, ?_, ?_, ?_⟩
+            · intro k c h
+              rcases List.mem_cons.mp h with hx | hy
+              · injection hx with h1 h2
+                exact Or.inr ⟨h1, h2, trivial⟩
+              · refine Or.inl ⟨hy, ?_⟩
+                intro e; exact (hnr k (e ▸ hy)).elim
+            · intro c h; exact h
+            · intro h; exact (hna h).elim
+            · intro c h; cases h
+        · -- waiting
+          rename_i ch hpc
+          have hnr : ∀ k, (k, t) ∈ s.inProgress → False := by
+            intro k hk; have := (hreg k hk).1; rw [hpc] at this; exact this
+          have hna : ¬ OwnerActive th.pc := by rw [hpc]; exact id
+          split
+          · exact keyFacts_plain s t th _ rfl rfl rfl rfl (fun k hk => (hnr k hk).elim) (fun h => (hna h).elim)
+              (by intro c h; cases h)
+          · exact keyFacts_plain s t th _ rfl rfl rfl rfl (fun k hk => (hnr k hk).elim) (fun h => (hna h).elim)
+              (by intro c h; exact Or.inl h)
+        · -- secondGet
+          rename_i ow hpc
+          cases ow with
+          | false =>
+            have hnr : ∀ k, (k, t) ∈ s.inProgress → False := by
+              intro k hk; have := (hreg k hk).1; rw [hpc] at this; exact this
+            have hna : ¬ OwnerActive th.pc := by rw [hpc]; exact id
+            split
+            · exact keyFacts_plain s t th _ rfl rfl rfl rfl (fun k hk => (hnr k hk).elim) (fun h => (hna h).elim)
+                (by intro c h; dsimp only at h; exact (finishPC_not_waiting _ _ _ h).elim)
+            · exact keyFacts_plain s t th _ rfl rfl rfl rfl (fun k hk => (hnr k hk).elim) (fun h => (hna h).elim)
+                (by intro c h; cases h)
+          | true =>
+            split
+            · exact keyFacts_plain s t th _ rfl rfl rfl rfl (fun _ _ => finishPC_registered _)
+                (fun _ => ownerRegistered_active (finishPC_registered _))
+                (by intro c h; dsimp only at h; exact (finishPC_not_waiting _ _ _ h).elim)
+            · exact keyFacts_plain s t th _ rfl rfl rfl rfl (fun _ _ => trivial) (fun _ => trivial)
+                (by intro c h; cases h)
+        · -- computing
+          rename_i ow hpc
+          cases ow with
+          | false =>
+            have hnr : ∀ k, (k, t) ∈ s.inProgress → False := by
+              intro k hk; have := (hreg k hk).1; rw [hpc] at this; exact this
+            have hna : ¬ OwnerActive th.pc := by rw [hpc]; exact id
+            split
+            · exact keyFacts_plain s t th _ rfl rfl rfl rfl (fun k hk => (hnr k hk).elim) (fun h => (hna h).elim)
+                (by intro c h; cases h)
+            · exact keyFacts_plain s t th _ rfl rfl rfl rfl (fun k hk => (hnr k hk).elim) (fun h => (hna h).elim)
+                (by intro c h; dsimp only at h; exact (finishPC_not_waiting _ _ _ h).elim)
+          | true =>
+            split
+            · exact keyFacts_plain s t th _ rfl rfl rfl rfl (fun _ _ => trivial) (fun _ => trivial)
+                (by intro c h; cases h)
+            · exact keyFacts_plain s t th _ rfl rfl rfl rfl (fun _ _ => finishPC_registered _)
+                (fun _ => ownerRegistered_active (finishPC_registered _))
+                (by intro c h; dsimp only at h; exact (finishPC_not_waiting _ _ _ h).elim)
+        · -- adding
+          rename_i ow v cap hpc
+          obtain ⟨c', hadd, _⟩ := add_spec s.cache th.key v cap hs.1
+          split
+          · rename_i heq; rw [hadd] at heq; cases heq
+          · cases ow with
+            | false =>
+              have hnr : ∀ k, (k, t) ∈ s.inProgress → False := by
+                intro k hk; have := (hreg k hk).1; rw [hpc] at this; exact this
+              have hna : ¬ OwnerActive th.pc := by rw [hpc]; exact id
+              exact keyFacts_plain s t th _ rfl rfl rfl rfl (fun k hk => (hnr k hk).elim) (fun h => (hna h).elim)
+                (by intro c h; dsimp only at h; exact (finishPC_not_waiting _ _ _ h).elim)
+            | true =>
+              exact keyFacts_plain s t th _ rfl rfl rfl rfl (fun _ _ => finishPC_registered _)
+                (fun _ => ownerRegistered_active (finishPC_registered _))
+                (by intro c h; dsimp only at h; exact (finishPC_not_waiting _ _ _ h).elim)
+        · -- cleanupDelete
+          rename_i r hpc
+          refine ⟨rfl, rfl, ?_, ?_, ?_, ?_⟩
+          · intro k c h
+            have hf := List.mem_filter.mp h
+            refine Or.inl ⟨hf.1, ?_⟩
+            intro e; subst e
+            exfalso
+            have hk := (hreg k hf.1).2
+            have hne : (k != th.key) = true := hf.2
+            simp [hk] at hne
+          · intro c h; exact h
+          · intro _; exact Or.inl trivial
+          · intro c h; cases h
+        · -- cleanupClose
+          rename_i r hpc
+          have hnr : ∀ k, (k, t) ∈ s.inProgress → False := by
+            intro k hk; have := (hreg k hk).1; rw [hpc] at this; exact this
+          refine ⟨rfl, rfl, ?_, ?_, ?_, ?_⟩
+          · intro k c h
+            refine Or.inl ⟨h, ?_⟩
+            intro e; subst e; exact (hnr k h).elim
+          · intro c h
+            show (t :: s.closed).contains c = true
+            simp only [List.contains_cons, Bool.or_eq_true]; exact Or.inr h
+          · intro _; right
+            show (t :: s.closed).contains t = true
+            simp
+          · intro c h; cases h
+        · -- done
+          rename_i r hpc
+          have hnr : ∀ k, (k, t) ∈ s.inProgress → False := by
+            intro k hk; have := (hreg k hk).1; rw [hpc] at this; exact this
+          have hna : ¬ OwnerActive th.pc := by rw [hpc]; exact id
+          exact keyFacts_plain s t th _ rfl rfl rfl rfl (fun k hk => (hnr k hk).elim) (fun h => (hna h).elim)
+            (by intro c h; exact Or.inl h)
+        · -- hung
+          rename_i hpc
+          have hnr : ∀ k, (k, t) ∈ s.inProgress → False := by
+            intro k hk; have := (hreg k hk).1; rw [hpc] at this; exact this
+          have hna : ¬ OwnerActive th.pc := by rw [hpc]; exact id
+          exact keyFacts_plain s t th _ rfl rfl rfl rfl (fun k hk => (hnr k hk).elim) (fun h => (hna h).elim)
+            (by intro c h; exact Or.inl h)
+      obtain ⟨k1, k2, k3, k4, k5, k6⟩ := key
+      have hset : ∀ ch, ch ≠ t → ∀ x, s.threads[ch]? = some x →
+          ((stepThread s t th o).1.threads.set t (stepThread s t th o).2)[ch]? = some x := by
+        intro ch hne x hx
+        rw [k1, List.getElem?_set_ne (Ne.symm hne)]; exact hx
+      have hsett : ((stepThread s t th o).1.threads.set t (stepThread s t th o).2)[t]? = some (stepThread s t th o).2 := by
+        rw [k1]; simp [hlt]
+      refine ⟨?_, ?_⟩
+      · intro k ch hm
+        rcases k3 k ch hm with ⟨hin, hreg⟩ | ⟨hk, hch, hreg⟩
+        · by_cases hct : ch = t
+          · subst hct
+            obtain ⟨th', h1, h2, _⟩ := hP k ch hin
+            rw [hth] at h1; injection h1 with h1; subst h1
+            exact ⟨_, hsett, by rw [k2]; exact h2, hreg rfl⟩
+          · obtain ⟨th', h1, h2, h3⟩ := hP k ch hin
+            exact ⟨th', hset ch hct th' h1, h2, h3⟩
+        · subst hch; subst hk
+          exact ⟨_, hsett, k2, hreg⟩
+      · intro u hu ch hw
+        -- the owner of channel `ch` afterwards
+        have owner_after : ∀ o', s.threads[ch]? = some o' → OwnerActive o'.pc →
+            (stepThread s t th o).1.closed.contains ch = true ∨
+            ∃ o'', ((stepThread s t th o).1.threads.set t (stepThread s t th o).2)[ch]? = some o'' ∧ OwnerActive o''.pc := by
+          intro o' ho' hact
+          by_cases hct : ch = t
+          · subst hct
+            rw [hth] at ho'; injection ho' with ho'; subst ho'
+            rcases k5 hact with h | h
+            · exact Or.inr ⟨_, hsett, h⟩
+            · exact Or.inl h
+          · exact Or.inr ⟨o', hset ch hct o' ho', hact⟩
+        rcases List.mem_or_eq_of_mem_set hu with hu | hu
+        · rw [k1] at hu
+          rcases hW u hu ch hw with h | ⟨o', h1, h2⟩
+          · exact Or.inl (k4 ch h)
+          · exact owner_after o' h1 h2
+        · subst hu
+          rcases k6 ch hw with h | h
+          · rcases hW th hmem ch h with h' | ⟨o', h1, h2⟩
+            · exact Or.inl (k4 ch h')
+            · exact owner_after o' h1 h2
+          · obtain ⟨o', h1, _, h3⟩ := hP th.key ch h
+            exact owner_after o' h1 (ownerRegistered_active h3)
+
+theorem run_progInv (s : Sys) (acts : List Action) (hs : SysInv s) (hp : ProgInv s) : ProgInv (run s acts) := by
+  induction acts generalizing s with
+  | nil => exact hp
+  | cons a as ih => exact ih _ (act_inv s a hs).1 (act_progInv s a hs hp)
+
+/-- **no deadlock**: in every state reachable under any schedule, if some call has not returned
+    yet then some call can take a step (and by `enabled_step_decreases` every such step brings that
+    call closer to returning). -/
+theorem progress (size : Int) (c : Cache) (acts : List Action)
+    (hnew : new Restic.Gen.bloblru_overhead size = .ok c) :
+    let s := run (initSys c) acts
+    (∃ th ∈ s.threads, ∀ r, th.pc ≠ .done r) → ∃ (t : Nat) (th : Thread), s.threads[t]? = some th ∧ Enabled s th := by
+  have ⟨hi, _, _, he⟩ := new_inv _ _ _ hnew
+  have hrun := run_inv (initSys c) acts (init_inv c hi he)
+  have hprog := run_progInv (initSys c) acts (init_inv c hi he)
+    ⟨by intro k ch h; simp [initSys] at h, by intro th h; simp [initSys] at h⟩
+  intro s ⟨th, hth, hnd⟩
+  have hok : ThreadOK s th := hrun.2.2 th hth
+  have ⟨t, ht⟩ : ∃ t : Nat, s.threads[t]? = some th := List.getElem?_of_mem hth
+  by_cases hen : Enabled s th
+  · exact ⟨t, th, ht, hen⟩
+  · -- not enabled and not done: hung (impossible) or waiting on an open channel
+    cases hpc : th.pc with
+    | waiting ch =>
+      rcases hprog.2 th hth ch hpc with h | ⟨o, h1, h2⟩
+      · exact absurd (show Enabled s th by unfold Enabled; rw [hpc]; exact h) hen
+      · refine ⟨ch, o, h1, ?_⟩
+        unfold Enabled
+        cases ho : o.pc <;> rw [ho] at h2 <;> first | trivial | cases h2
+    | done r => exact absurd hpc (hnd r)
+    | hung => simp [ThreadOK, hpc] at hok
+    | _ => exact absurd (by simp [Enabled, hpc]) hen
 
 /-! ### Non-vacuity: concrete runs (cache of 400 bytes, overhead 96) -/
 
